@@ -476,3 +476,35 @@ _EXTRA_RULE = {
 }
 for _k, _v in _EXTRA_RULE.items():
     PROPS[_k]["rule"] += " " + _v
+
+_ROUND6_RULE = {
+    "C02": "Round 6: a never-expires cookie (Max-Age=2147483647) in the response cookie sets.",
+    "C03": "Round 6: numeric family also varies the size line of a LATER chunk (after 5 / 300 body bytes) with negative and "
+           "wrapping values (-2, -3, -5, -12c and their 64-bit two's complements), parser and server level.",
+    "C05": "Round 6: a quarter of the stream programs run with a handler-set Transfer-Encoding: gzip - the reference reader takes "
+           "all Transfer-Encoding lines as one list whose final coding must be chunked (once); never-expires cookie; responses of 999 / 1000 / 1024 / 2048 bytes and a quarter of the stream programs under "
+           "two digit-grouping process-wide C++ locales.",
+    "C06": "Round 6: chained writes - for every two-write list and every answer plan the second write is issued, and the transport "
+           "flushed, by the completion of the first.",
+    "C07": "Round 6: stall-grid variant - while A is blocked, 1-2 further writes for A and B's answer are put into the worker's "
+           "write queue from outside the loop and the loop thread then calls flush(); B's answer must go out within the step limit.",
+    "C08": "Round 6: composite client events connect+rst / connect+close (the connection dies in the listen backlog before accept4); "
+           "c08_parked: event 'the application answers the kept responses from its own thread' (time-outs disarmed off the worker).",
+    "C11": "Round 6: payload family - Promise<std::string> / Promise<std::vector<int>> (value beyond the small-string buffer), 0..2 "
+           "continuations before and 1..2 after the fulfilment (by value / const reference; returning value / nothing / promise), "
+           "optionally an all-of formed afterwards: 1680 programs per type, every continuation sees the produced value once.",
+    "C12": "Round 6: the derived promise of a promise-returning continuation carries two continuations (its list is exactly full) "
+           "when the inner promise is fulfilled / rejected || a third then().",
+    "C14": "Round 6: two stalls in one request (250-750 ms before / inside the head, then after the head / inside the body), judged "
+           "by the body time-out from the request's start; first to third (fourth) request of a connection.",
+    "C15": "Round 6: every cut position of a plain and a chunked response (two requests over one keep-alive connection); requests "
+           "with the method HEAD and the server behaviour 'not HTTP'; 2-3 consecutive never-answered / dropped requests with "
+           "time-outs on one connection object (limit 1); the connection count is the client's (a connection whose FIN / RST has "
+           "reached the server no longer counts).",
+    "C17": "Round 6: every token character at the start / end / middle / as the whole of a cookie name, at each of three positions "
+           "of a Cookie header, directly and through the request parser.",
+    "C18": "Round 6: quality numerals with 1..40 fraction digits x 6 digit patterns x 3 carriers x 3 tails: accepted, q to the "
+           "hundredth, following parameter kept.",
+}
+for _k, _v in _ROUND6_RULE.items():
+    PROPS[_k]["rule"] += " " + _v
